@@ -116,7 +116,7 @@ int main(int argc, char** argv) {
     Shared S; int n = 0; VhRng r(seed);
     logev("\"e\":\"ThreadStart\",\"tid\":0");
     // workspaces used by the workers are allocated by the main thread, which outlives them (a Lagrange polynomial keeps a pointer to the FFT processor of the
-    // thread that created it: see the probe below and finding D8)
+    // thread that created it: see the probe below and defect D8, repaired by 0f4e6fe)
     for (int q = 0; q < 64; q++) { Ws w; w.la = new_LagrangeHalfCPolynomial(1024); w.lb = new_LagrangeHalfCPolynomial(1024); w.lr = new_LagrangeHalfCPolynomial(1024); S.ws.push_back(w); }
     if (vh_arg(argc, argv, "--probe", 0)) {
         // probe: a polynomial created by a thread that has exited, then used by the main thread.  Events only name identities (which processor the polynomial
